@@ -27,7 +27,7 @@ from ..msggen import Cls, Elem, Field, Schema, scalar
 
 IMPORTS = ("Model.Types Model.Object Model.Eq Model.Encode Model.Decode Model.Canon Model.WellFormed Model.History "
            "Model.C14Ops Model.C14Pickle Model.C14UDef gen.Tables")
-EXTRA_TARGETS = ["Model/Canon.vo", "Model/C14Ops.vo", "Model/C14Pickle.vo", "Model/C14UDef.vo"]
+EXTRA_TARGETS = ["Model/Canon.vo", "Model/C14Ops.vo", "Model/C14Pickle.vo", "Model/C14UDef.vo", "Model/C14Heap.vo", "Model/C14HeapCv.vo"]
 CORPUS = os.path.join(lib.VERIF, "corpus", "C14-regress.json")
 
 TRUSTED = [
@@ -39,8 +39,11 @@ TRUSTED = [
     "Python side: harness/msggen.py + harness/histgen.py (schema, value and history generators, snapshot of raw attributes through "
     "object.__getattribute__), raw_clone (replica of the raw state used to measure bytes / == / presence without touching the object)",
     "translator harness/gen_tables.py (type tables reflected into coq/gen/Tables.v)",
-    "object identity / aliasing is NOT modelled (values are trees): independence of deep and unpickled copies is checked on the "
-    "implementation only (mutation of the copy through every path, original re-snapshotted)",
+    "object identity / aliasing: the value model is tree-valued; independence of deep and unpickled copies is proved over the heap "
+    "model coq/Model/C14Heap.v (cells for Message / list / dict, h_copy / h_deepcopy with copy.deepcopy's per-field memo / h_pickle_rt, "
+    "mutations through a root with the lazy-default write-back), tied to the code by the aliasing stage: the sharing observed with id() "
+    "between original and copy and inside the copy, the copy's state, and both states after mutations through the copy are compared "
+    "with the model (vm_compute); pickling's own write-back into the original (bytes(m)) is compared up to the value-level `touch`",
     "pickle: C14_pickle (equality in both operand orders, byte identity, unknown bytes of the top-level message, presence at every "
     "path) is proved from the C01 round trip (Properties/C01.v) and C08's unknown-field theorems under the decidable hypotheses "
     "pickle_pre / pickle_pre_u (unknown bytes at any depth, Model/C14UDef.v) / sow_ok / flags_ok (Model/C14Pickle.v), which the check "
@@ -49,7 +52,9 @@ TRUSTED = [
 ]
 ASSUMPTIONS = [
     "Python int is Z; str is its UTF-8 bytes (no lone surrogates); float is its binary64 pattern; aware datetimes are microseconds since the epoch",
-    "object identity is not modelled (values are trees); a shallow copy sharing its children with the original is therefore the same tree",
+    "in the value model object identity is not represented (a shallow copy sharing its children is the same tree); identity is the subject "
+    "of the heap model (Model/C14Heap.v): dict keys are compared by type and value (True and 1 are different keys there), datetime / "
+    "timedelta / str / bytes / numbers are immutable scalars without identity",
     "to_dict / to_json / to_pydict are modelled by their effect on the state only (their output is C04/C05's subject)",
     "an observer that raises leaves a state related to the previous one by `mat` (checked on the implementation, stated for `mat` in Coq); "
     "`observe` is the state after a normal return",
@@ -769,6 +774,371 @@ def corpus_ops(s, ci, spec):
     return ops
 
 
+# --------------------------------------------------------------------------------------------------
+# aliasing stage: the heap model (coq/Model/C14Heap.v) against object identity on the implementation
+# --------------------------------------------------------------------------------------------------
+ALIAS_IMPORTS = IMPORTS + " Model.C14Heap Model.C14HeapCv"
+
+
+def _mutable(x):
+    import betterproto as bp
+    return isinstance(x, (bp.Message, list, dict))
+
+
+def _cls_of(schema, m):
+    cls = type(m)
+    if cls not in schema.index_of:
+        raise msggen.ForeignValue(f"class {cls.__qualname__} is not a class of this schema")
+    return schema.classes[schema.index_of[cls] - msggen.NBUILTIN]
+
+
+def walk_ids(schema, root):
+    """(path, id) of every Message / list / dict below root (root included), preorder, raw attributes (no default is
+    created), fields in declaration order, lists in order, dicts in insertion order: Model/C14Heap.v `paths`"""
+    import betterproto as bp
+    out = []
+
+    def go(x, path, depth):
+        if depth > 40:
+            raise msggen.Unmodellable("too deep")
+        out.append((tuple(path), id(x)))
+        if isinstance(x, bp.Message):
+            c = _cls_of(schema, x)
+            for i, f in enumerate(c.fields):
+                v = object.__getattribute__(x, f.name)
+                if _mutable(v):
+                    go(v, path + [("f", i)], depth + 1)
+        elif isinstance(x, list):
+            for k, v in enumerate(x):
+                if _mutable(v):
+                    go(v, path + [("i", k)], depth + 1)
+        else:
+            for key, v in x.items():
+                if _mutable(v):
+                    go(v, path + [("k", key)], depth + 1)
+    go(root, [], 0)
+    return out
+
+
+def cv_key_py(key):
+    if isinstance(key, bool):
+        return cl([cz(1), cbool(key)])
+    if isinstance(key, int):
+        return cl([cz(0), cz(key)])
+    if isinstance(key, str):
+        return cl([cz(2), cb(key.encode("utf-8"))])
+    raise msggen.Unmodellable("dict key of type " + type(key).__name__)
+
+
+def cv_path_py(path):
+    items = []
+    for t, x in path:
+        items.append(cl([cz(0), cz(x)]) if t == "f" else cl([cz(1), cz(x)]) if t == "i" else cl([cz(2), cv_key_py(x)]))
+    return cl(items)
+
+
+def cv_pairs_py(pairs):
+    return cl([cl([cv_path_py(p), cv_path_py(q)]) for p, q in pairs])
+
+
+def coq_path(schema, path):
+    items = []
+    for t, x in path:
+        items.append(f"PField {x}%nat" if t == "f" else f"PItem {x}%nat" if t == "i" else f"PKey {msggen.pv_literal(schema, x)}")
+    return "[" + "; ".join(items) + "]"
+
+
+def py_nav(schema, root, path):
+    """Model/C14Heap.v `nav` on real objects: attribute reads go through getattr (lazy defaults are stored)"""
+    import betterproto as bp
+    cur = root
+    for t, x in path:
+        if t == "f":
+            if not isinstance(cur, bp.Message):
+                return None
+            c = _cls_of(schema, cur)
+            if x >= len(c.fields):
+                return None
+            try:
+                cur = getattr(cur, c.fields[x].name)
+            except AttributeError:
+                return None
+        elif t == "i":
+            if not isinstance(cur, list) or x >= len(cur):
+                return None
+            cur = cur[x]
+        else:
+            if not isinstance(cur, dict) or x not in cur:
+                return None
+            cur = cur[x]
+        if not _mutable(cur):
+            return None
+    return cur
+
+
+def py_mut(schema, root, mu):
+    """Model/C14Heap.v `h_mut` on real objects"""
+    import betterproto as bp
+    k = mu[0]
+    if k == "appendref":
+        b = py_nav(schema, root, mu[2])
+        if b is None:
+            return
+        a = py_nav(schema, root, mu[1])
+        if isinstance(a, list):
+            a.append(b)
+        return
+    a = py_nav(schema, root, mu[1])
+    if a is None or k == "read":
+        return
+    if k == "set":
+        if isinstance(a, bp.Message):
+            c = _cls_of(schema, a)
+            if mu[2] < len(c.fields):
+                setattr(a, c.fields[mu[2]].name, mu[3])
+    elif k == "append":
+        if isinstance(a, list):
+            a.append(mu[2])
+    elif k == "listset":
+        if isinstance(a, list) and mu[2] < len(a):
+            a[mu[2]] = mu[3]
+    elif k == "dictset":
+        if isinstance(a, dict):
+            a[mu[2]] = mu[3]
+    elif k == "dictdel":
+        if isinstance(a, dict) and mu[2] in a:
+            del a[mu[2]]
+
+
+def coq_mut(schema, mu, lits):
+    """lits: the literals of the assigned values, taken BEFORE the mutation ran (__setattr__ may raise the value's flag)"""
+    k = mu[0]
+    P = lambda p: coq_path(schema, p)  # noqa
+    if k == "appendref":
+        return f"MAppendRef {P(mu[1])} {P(mu[2])}"
+    if k == "read":
+        return f"MRead {P(mu[1])}"
+    if k == "set":
+        return f"MSet {P(mu[1])} {mu[2]}%nat {lits}"
+    if k == "append":
+        return f"MAppend {P(mu[1])} {lits}"
+    if k == "listset":
+        return f"MListSet {P(mu[1])} {mu[2]}%nat {lits}"
+    if k == "dictset":
+        return f"MDictSet {P(mu[1])} {msggen.pv_literal(schema, mu[2])} {lits}"
+    if k == "dictdel":
+        return f"MDictDel {P(mu[1])} {msggen.pv_literal(schema, mu[2])}"
+    raise ValueError(k)
+
+
+def mut_value(mu):
+    return {"set": 3, "append": 2, "listset": 3, "dictset": 3}.get(mu[0])
+
+
+def gen_mut(schema, root, rng):
+    """a mutation through root, chosen by walking a replica (so that choosing creates nothing in the real object)"""
+    import betterproto as bp
+    rep = raw_clone(root)
+    cur, path = rep, []
+    for _ in range(rng.choice([0, 0, 1, 1, 2, 3, 4])):
+        if isinstance(cur, bp.Message):
+            c = _cls_of(schema, cur)
+            cands = [i for i, f in enumerate(c.fields) if f.card in ("repeated", "map") or (f.elem.kind == "msg" and f.card == "plain")]
+            if not cands:
+                break
+            i = rng.choice(cands)
+            try:
+                nxt = getattr(cur, c.fields[i].name)
+            except AttributeError:
+                break
+            step = ("f", i)
+        elif isinstance(cur, list):
+            ks = [k for k, v in enumerate(cur) if _mutable(v)]
+            if not ks:
+                break
+            k = rng.choice(ks)
+            nxt, step = cur[k], ("i", k)
+        else:
+            ks = [k for k, v in cur.items() if _mutable(v)]
+            if not ks:
+                break
+            k = rng.choice(ks)
+            nxt, step = cur[k], ("k", k)
+        if not _mutable(nxt):
+            break
+        cur = nxt
+        path.append(step)
+    if isinstance(cur, bp.Message):
+        c = _cls_of(schema, cur)
+        if not c.fields or rng.random() < 0.15:
+            return ("read", path)
+        i = rng.randrange(len(c.fields))
+        return ("set", path, i, msggen.gen_field_value(schema, c.fields[i], rng, 3))
+    # the field that holds this container: the last field step on the path
+    holder, f = rep, None
+    for t, x in path:
+        if t == "f":
+            f = _cls_of(schema, holder).fields[x]
+            holder = getattr(holder, f.name)
+        elif t == "i":
+            holder = holder[x]
+        else:
+            holder = holder[x]
+    if f is None:
+        return ("read", path)
+    if isinstance(cur, list):
+        if cur and rng.random() < 0.3:
+            return ("listset", path, rng.randrange(len(cur)), msggen.gen_elem(schema, f.elem, rng, 3))
+        return ("append", path, msggen.gen_elem(schema, f.elem, rng, 3))
+    if cur and rng.random() < 0.3:
+        return ("dictdel", path, rng.choice(list(cur.keys())))
+    key = rng.choice(list(cur.keys())) if cur and rng.random() < 0.3 else msggen.gen_scalar(f.key.pt, rng, True)
+    return ("dictset", path, key, msggen.gen_elem(schema, f.elem, rng, 3))
+
+
+def gen_alias(schema, root, rng):
+    """root.<list>.append(root.<something of the element class>): aliasing inside one structure (what copy.deepcopy's memo
+    is about: the same message twice in ONE list is copied once, a message held by two fields twice)"""
+    import betterproto as bp
+    ids = walk_ids(schema, root)
+    objs = {}
+
+    def at(path):
+        cur = root
+        for t, x in path:
+            cur = object.__getattribute__(cur, _cls_of(schema, cur).fields[x].name) if t == "f" else cur[x]
+        return cur
+    lists = []
+    for path, _ in ids:
+        if path and path[-1][0] == "f":
+            holder = at(path[:-1])
+            f = _cls_of(schema, holder).fields[path[-1][1]]
+            if f.card == "repeated" and f.elem.kind == "msg":
+                lists.append((path, f.elem.ref))
+    rng.shuffle(lists)
+    for lpath, ref in lists:
+        cands = [p for p, _ in ids if p and isinstance(at(p), bp.Message)
+                 and schema.index_of[type(at(p))] - msggen.NBUILTIN == ref and p[:len(lpath)] != lpath[:len(p)]]
+        same = [p for p, _ in ids if len(p) == len(lpath) + 1 and p[:len(lpath)] == lpath]
+        pool = same * 2 + cands
+        lst = at(lpath)
+        # never append an object that reaches the list itself (a cycle: bytes() would not terminate)
+        pool = [p for p in pool if id(lst) not in {i for _, i in walk_ids(schema, at(p))}]
+        if pool:
+            return ("appendref", list(lpath), list(rng.choice(pool)))
+    return None
+
+
+def aliasing_stage(ctx, schemas):
+    import random
+    rng = random.Random(ctx.seed * 7919 + 14)
+    ncases = 14 if not ctx.thorough else 120
+    pairs, meta, prelude = [], [], []
+    for si, s in enumerate(schemas):
+        prelude.append(f"Definition asc{si} : schema := {s.coq()}.")
+        made = tries = 0
+        while made < ncases and tries < ncases * 6:
+            tries += 1
+            ci = rng.randrange(len(s.classes))
+            try:
+                base = build_value(s, ci, rng, rng.choice(["constructed", "constructed", "decoded"]), True)
+                lit0 = lit(s, base)
+                pre = []
+                if rng.random() < 0.7:
+                    m = raw_clone(base)
+                    for _ in range(rng.choice([1, 1, 2])):
+                        a = gen_alias(s, m, rng)
+                        if a is not None:
+                            pre.append(a)
+                            py_mut(s, m, a)
+                pre_coq = "[" + "; ".join(coq_mut(s, a, None) for a in pre) + "]"
+            except (RecursionError, msggen.Unmodellable, msggen.ForeignValue):
+                ctx.count("aliasing:skipped")
+                continue
+            except Exception as e:  # noqa
+                ctx.count("aliasing:construct_error:" + type(e).__name__)
+                continue
+            made += 1
+            if pre:
+                ctx.count("aliasing:original_with_internal_aliasing")
+            for kn, (kind, fn) in enumerate([("copy", copy.copy), ("deepcopy", copy.deepcopy), ("pickle", histgen.pickle_rt)]):
+                # a fresh original for every operation (mutating the SHALLOW copy changes the original it was taken from)
+                try:
+                    m = raw_clone(base)
+                    for a in pre:
+                        py_mut(s, m, a)
+                    before = lit(s, m)
+                except (RecursionError, msggen.Unmodellable, msggen.ForeignValue):
+                    ctx.count("aliasing:skipped")
+                    continue
+                info = {"schema": s.describe(), "class": s.classes[ci].name, "original": safe_repr(m), "aliasing": repr(pre)[:400],
+                        "operation": kind}
+                try:
+                    r = fn(m)
+                except RecursionError:
+                    continue
+                except Exception as e:  # noqa
+                    if kind == "pickle":
+                        pairs.append((f"alias_case asc{si} {lit0} {pre_coq} 2%nat []", ce("EOther")))
+                        meta.append({"what": "pickle raises", "info": info})
+                    else:
+                        ctx.fail("oracle", f"{kind} raised {type(e).__name__}", None, input=info)
+                    continue
+                try:
+                    # pickling runs bytes(m), which stores lazy defaults in the original (Model/History.v touch; the observer
+                    # theorems): the state to be preserved by the mutations of the copy is the one after the operation
+                    after_op = lit(s, m)
+                    ids_m = walk_ids(s, m)
+                    ids_r = walk_ids(s, r)
+                    shared = [(p, q) for p, a in ids_m for q, b in ids_r if a == b]
+                    within = [(p, q) for j, (p, a) in enumerate(ids_r) for q, b in ids_r[j + 1:] if a == b]
+                    copy_lit = lit(s, r)
+                    # ---- oracle: a deep / unpickled copy has no mutable object in common with the original
+                    if kind != "copy" and shared:
+                        ctx.fail("oracle", f"the {kind} shares a mutable object with the original at {shared[0]!r}", None, input=info)
+                    ctx.count(f"aliasing:{kind}:shared_pairs", len(shared))
+                    ctx.count(f"aliasing:{kind}:pairs_inside_copy", len(within))
+                    post, post_coq = [], []
+                    for _ in range(rng.choice([1, 2, 3, 5])):
+                        mu = gen_mut(s, r, rng)
+                        vi = mut_value(mu)
+                        post_coq.append(coq_mut(s, mu, msggen.pv_literal(s, mu[vi]) if vi is not None else None))
+                        post.append(mu)
+                        py_mut(s, r, mu)
+                        ctx.count("aliasing:mutation:" + mu[0])
+                    info["mutations_of_the_copy"] = repr(post)[:1200]
+                    after = lit(s, m)
+                    after_copy = lit(s, r)
+                except (RecursionError, msggen.Unmodellable, msggen.ForeignValue):
+                    ctx.count("aliasing:skipped")
+                    continue
+                if kind != "copy" and after != after_op:
+                    ctx.fail("oracle", f"mutating the {kind} changed the original", None, input=info)
+                if kind == "copy" and after != after_op:
+                    ctx.count("aliasing:copy:mutation_visible_in_original")
+                # bytes(m) inside pickle stores lazy defaults in the original; the model compares up to the tree-level `touch`, which
+                # cannot describe an original with aliasing inside (one object touched through one path shows at the other): kind 3
+                skip_after = kind == "pickle" and pre
+                expected = cl([f"(cv_of_obj {before})", cv_pairs_py(shared), cv_pairs_py(within), f"(cv_of_obj {copy_lit})",
+                               CN if skip_after else f"(cv_of_obj {after})", f"(cv_of_obj {after_copy})"])
+                pairs.append((f"alias_case asc{si} {lit0} {pre_coq} {3 if skip_after else kn}%nat [" + "; ".join(post_coq) + "]", expected))
+                meta.append({"what": f"sharing structure / effect of mutations: {kind}", "info": info})
+                ctx.seen_nontrivial(("aliasing", si, ci, kind, len(shared), len(within), len(post)))
+    if not pairs:
+        return
+    try:
+        bad = lib.coq_compare(ctx, "c14alias", ALIAS_IMPORTS, pairs, chunk=12, prelude="\n".join(prelude))
+    except RuntimeError as e:
+        ctx.fail("corr", "the aliasing model cannot be evaluated: " + str(e)[-800:], no_input=True,
+                 theorem_or_correspondence="C14_deepcopy_independent")
+        return
+    ctx.count("aliasing:cases", len(pairs))
+    for i in bad[:6]:
+        ctx.fail("corr", "heap model and implementation disagree: " + meta[i]["what"], input=meta[i]["info"],
+                 model_expr=pairs[i][0][:6000], implementation=pairs[i][1][:3000])
+
+
+
 def run(ctx):
     rng = ctx.rng
     R = Run(ctx)
@@ -854,6 +1224,13 @@ def run(ctx):
         ctx.fail("corr", f"model and implementation disagree: {meta['what']}", input=meta["info"],
                  model_expr=R.pairs[i][0][:6000], implementation=R.pairs[i][1][:3000])
     ctx.cov["disagreements_checked"] = len(R.pairs)
+    # ---- object identity: sharing structure and independence against the heap model
+    try:
+        aliasing_stage(ctx, R.schemas[:3])
+    except Exception as e:  # noqa
+        import traceback
+        ctx.fail("crash", f"the aliasing stage raised {type(e).__name__}: {e}", no_input=True,
+                 theorem_or_correspondence="C14_deepcopy_independent", traceback=traceback.format_exc()[-2000:])
     for s in R.schemas:
         s.dispose()
 
@@ -866,8 +1243,8 @@ def finish(ctx):
         ASSUMPTIONS, TRUSTED, RULE,
         extra_cov={"explanation": "theorems are unbounded (all well-formed schemas, all object states, all finite observer sequences, all "
                                   "histories over the operation alphabet after a copy); the correspondence and the oracle sample schemas, "
-                                  "values and histories; independence of deep / unpickled copies is checked on the implementation only "
-                                  "(partial)"})
+                                  "values and histories; independence of deep / unpickled copies: theorems over the heap model (unbounded heaps, "
+                                  "depths and mutation sequences), sharing structure and mutation effects sampled against id() on real objects"})
 
 
 def replay(ctx, obj):
